@@ -382,12 +382,16 @@ def judgeGo : Option RQ → List String → List String → List String → List
     | ["iq", i] =>
       match cur, i.toNat? with
       | some r, some i =>
+        -- an index outside the range query's steps (possible after shrinking dropped an `rq` line) is not judged
+        if i ≥ r.nSteps || out = "bad-op" then judgeGo cur ops outs acc else
         let iv := parseVariants out
         judgeGo (some { r with iqs := r.iqs ++ [(i, iv)] }) ops outs (acc ++ judgeIq r i iv)
       | _, _ => judgeGo cur ops outs acc
     | ["oq", i, d] =>
       match cur, i.toNat?, d.toInt? with
-      | some r, some i, some d => judgeGo cur ops outs (acc ++ judgeOq r i d (parseVariants out))
+      | some r, some i, some d =>
+        if i ≥ r.nSteps || out = "bad-op" then judgeGo cur ops outs acc
+        else judgeGo cur ops outs (acc ++ judgeOq r i d (parseVariants out))
       | _, _, _ => judgeGo cur ops outs acc
     | _ => judgeGo cur ops outs acc
   | cur, _, _, acc => acc ++ (match cur with | some r => rqSelfCheck r | none => [])
